@@ -16,6 +16,7 @@ package main
 //                                             -> obs [state, #onTripped, #onStandby]
 //      [2 d]                    Tick d ns     -> obs []
 //      [3]                      Nop (a Complete with nothing in flight is rewritten to this)
+//      [5]                      Wrap(the same handler again) -> obs []
 //      [4 k]                    k requests arriving together from k goroutines (issued in standby and inside the fallback
 //                               period; rewritten to Nop elsewhere) -> obs [number passed on, state, #onTripped, #onStandby]
 //    state: 0 standby, 1 tripped, 2 recovering. hint / lat.. are oracle slots filled in by Run:
@@ -472,7 +473,7 @@ func (c *cbComp) Run(h *hlib.History) ([]hlib.Mon, bool) {
 			if total = satAdd(total, op[1]); total > 9000000000*second {
 				return nil, false
 			}
-		case len(op) == 1 && op[0] == 3:
+		case len(op) == 1 && (op[0] == 3 || op[0] == 5):
 		case len(op) == 2 && op[0] == 4 && op[1] >= 1 && op[1] <= 64:
 		default:
 			return nil, false
@@ -808,6 +809,12 @@ func (c *cbComp) Run(h *hlib.History) ([]hlib.Mon, bool) {
 			}
 			prev = cur
 
+		case 5: // Wrap: the protected handler is exchanged (for an equivalent one), in whatever state the breaker is
+			cb.Wrap(next)
+			h.Obs = append(h.Obs, []int64{})
+			if cur := r.state(); cur != prev {
+				mon("C05", step, "Wrap moved the state %d -> %d", prev, cur)
+			}
 		case 2:
 			clock.Advance(time.Duration(op[1]))
 			h.Obs = append(h.Obs, []int64{})
@@ -1109,6 +1116,8 @@ func (c *cbComp) Gen(rng *rand.Rand, idx int, tier string, targeted bool) hlib.H
 	}
 	for len(h.Ops) < nops {
 		switch r := rng.Intn(100); {
+		case r < 2:
+			h.Ops = append(h.Ops, []int64{5})
 		case r < 4:
 			perr = []int{0, 20, 50, 80, 100}[rng.Intn(5)]
 		case r < 12: // burst
@@ -1156,6 +1165,8 @@ func (c *cbComp) Describe(h *hlib.History) interface{} {
 			obs = h.Obs[i]
 		}
 		switch op[0] {
+		case 5:
+			ops = append(ops, "Wrap(same handler)")
 		case 4:
 			s := fmt.Sprintf("%d requests arrive together", op[1])
 			if len(obs) == 4 {
